@@ -113,7 +113,7 @@ def main():
         if r['status'] in ('undecided', 'timeout', 'tool_error'):
             undecided.append((u, r.get('reason') or [d['msg'] for d in r.get('other_errors', [])][:3] or r['status']))
     obligations, failed, known_lines, kf_obls, violations = [], [], [], [], []
-    trusted, rewrites, fns, smt_ms, rlimit_total, fn_times = [], [], [], 0, 0, {}
+    trusted, rewrites, fns, smt_ms, rlimit_total, fn_times, unverified = [], [], [], 0, 0, {}, {}
     for u, r in main_res.items():
         if 'builder' not in r: continue
         b = r['builder']
@@ -125,6 +125,18 @@ def main():
         trusted += ['[%s] %s' % (u, t) for t in b.trusted]
         rewrites += ['[%s] %s %s: %s => %s' % (u, e['rule'], e['where'], e['before'], e['after']) for e in b.log]
         fns += ['%s:%s' % (u, f[2]) for f in b.fn_ranges]
+        # mechanical scan of the assembled file for everything that is assumed rather than proved
+        try:
+            txt = open(r['path']).read()
+            scan = {'external_body': sorted(set(re.findall(r'#\[verifier::external_body\]\s*(?:pub\s+)?(?:fn|struct)\s+(\w+)', txt))),
+                    'assume_specification': sorted(set(re.findall(r'assume_specification(?:<[^>]*>)?\s*\[\s*([^\]]+?)\s*\]', txt))),
+                    'axioms': sorted(set(re.findall(r'axiom fn (\w+)', txt))),
+                    'uninterpreted': sorted(set(re.findall(r'uninterp spec fn (\w+)', txt)))}
+            unverified[u] = scan
+            if re.search(r'\b(assume|admit)\s*\(', re.sub(r'assume_specification', '', txt)):
+                undecided.append((u, 'the assembled file contains assume( or admit('))
+        except Exception:
+            pass
         if r.get('json'):
             smt = (r['json'].get('times-ms') or {}).get('smt') or {}
             smt_ms += smt.get('total', 0); rlimit_total += smt.get('rlimit-run', 0)
@@ -204,7 +216,7 @@ def main():
                        'trusted_base': sorted(set(trusted)),
                        'samples': sorted(counted)[:60],
                        'back_end': 'Verus 0.2026.09.13 (Z3)' + (' + Kani 0.68 (CBMC 6.11, CaDiCaL)' if kani_res else ''),
-                       'functions_under_contract': sorted(set(fns)), 'function_times': fn_times,
+                       'functions_under_contract': sorted(set(fns)), 'function_times': fn_times, 'assumed_items_scan': unverified,
                        'smt_time_ms': smt_ms, 'rlimit_units': rlimit_total,
                        'rewrites_applied': rewrites,
                        'units': {u: r['status'] for u, r in main_res.items()},
